@@ -25,7 +25,9 @@ def gen(rng, tier):
         unsorted_ = regs != sorted(regs)
         ops = [['len'], ['iter']] + [['get', i] for i in range(len(regs) + 3)]
         for _ in range(rng.randint(2, 8)):
-            q = R.rand_query(rng, regs, mode)
+            q = R.rand_query(rng, regs, mode, nonempty=(rng.random() < 0.7))          # also point queries [p, p)
+            if rng.random() < 0.06:
+                q = (q[0], q[2], q[1])                                                   # and reversed ones
             qa = [R.h(q[0]), q[1], q[2]]
             if k % 2 == 0:
                 ops += [['find'] + qa, ['findidx'] + qa, ['findfull'] + qa, ['isov'] + qa]
